@@ -2,6 +2,7 @@
   C01 — authentication round trip.  (Theorems are added method by method; see DESIGN.md.)
 -/
 import Xc.Lemmas.Api
+import Xc.Lemmas.Fix
 namespace Xc.C01
 open Xc
 
@@ -15,5 +16,97 @@ theorem C01_result_passes_filter (cfg : Config) (D : Digests) (hD : D.WF) (p s H
   · rw [checkBad_eq, h1]; rfl
   · intro he; rw [he] at h2; simp at h2
   · exact h3
+
+/-! ### The round trip and "only prefix, options and salt matter", method by method.
+
+For a method `m`, `C01_m_fix` is the authentication round trip at the level of the front-end (`crypt_m_rn`):
+whatever setting `s` produced `H`, hashing the same phrase with `H` as the setting reproduces `H`.
+`C01_m_hashpart` is the second clause: `H` splits as `S ++ digestText`, and `S ++ t` gives `H` for EVERY text `t`
+(so the hash portion of a stored hash has no influence, and neither has anything after it).
+All of it holds for arbitrary digest functions `D`.  Methods not listed here (sunmd5, scrypt,
+yescrypt, gost-yescrypt) have no such theorem yet: for them the clause rests on the oracle of checks/c01.py. -/
+
+theorem C01_md5crypt_fix (D : Digests) (p s H : Bytes) (h : cryptMd5 D p s = .ok H) : cryptMd5 D p H = .ok H := by
+  obtain ⟨salt, e, f⟩ := cryptMd5_refeed h
+  have := f (permEncode Gen.perm_md5crypt (D.md5crypt p salt)); rwa [← e] at this
+
+theorem C01_md5crypt_hashpart (D : Digests) (p s H : Bytes) (h : cryptMd5 D p s = .ok H) :
+    ∃ S dig, H = S ++ dig ∧ ∀ t, cryptMd5 D p (S ++ t) = .ok H := by
+  obtain ⟨salt, e, f⟩ := cryptMd5_refeed h
+  exact ⟨_, _, e, f⟩
+
+theorem C01_sha256crypt_fix (D : Digests) (p s H : Bytes) (h : cryptSha256 D p s = .ok H) : cryptSha256 D p H = .ok H := by
+  obtain ⟨P, e, f⟩ := cryptSha256_refeed h
+  have := f (permEncode Gen.perm_sha256crypt (D.sha256crypt p P.salt P.rounds)); rwa [← e] at this
+
+theorem C01_sha256crypt_hashpart (D : Digests) (p s H : Bytes) (h : cryptSha256 D p s = .ok H) :
+    ∃ S dig, H = S ++ dig ∧ ∀ t, cryptSha256 D p (S ++ t) = .ok H := by
+  obtain ⟨P, e, f⟩ := cryptSha256_refeed h
+  refine ⟨Gen.sha256_salt_prefix ++ (if P.custom then Gen.sha256_rounds_prefix ++ toDec P.rounds ++ [36] else []) ++ P.salt ++ [36],
+    permEncode Gen.perm_sha256crypt (D.sha256crypt p P.salt P.rounds), ?_, fun t => ?_⟩
+  · rw [e]; simp only [emitSha]
+  · have := f t; simpa only [emitSha] using this
+
+theorem C01_sha512crypt_fix (D : Digests) (p s H : Bytes) (h : cryptSha512 D p s = .ok H) : cryptSha512 D p H = .ok H := by
+  obtain ⟨P, e, f⟩ := cryptSha512_refeed h
+  have := f (permEncode Gen.perm_sha512crypt (D.sha512crypt p P.salt P.rounds)); rwa [← e] at this
+
+theorem C01_sha512crypt_hashpart (D : Digests) (p s H : Bytes) (h : cryptSha512 D p s = .ok H) :
+    ∃ S dig, H = S ++ dig ∧ ∀ t, cryptSha512 D p (S ++ t) = .ok H := by
+  obtain ⟨P, e, f⟩ := cryptSha512_refeed h
+  refine ⟨Gen.sha512_salt_prefix ++ (if P.custom then Gen.sha512_rounds_prefix ++ toDec P.rounds ++ [36] else []) ++ P.salt ++ [36],
+    permEncode Gen.perm_sha512crypt (D.sha512crypt p P.salt P.rounds), ?_, fun t => ?_⟩
+  · rw [e]; simp only [emitSha]
+  · have := f t; simpa only [emitSha] using this
+
+theorem C01_sha1crypt_fix (D : Digests) (p s H : Bytes) (h : cryptSha1 D p s = .ok H) : cryptSha1 D p H = .ok H := by
+  obtain ⟨P, e, f⟩ := cryptSha1_refeed h
+  have := f (sha1Encode (D.sha1crypt p P.salt P.iterations)); rwa [← e] at this
+
+theorem C01_sha1crypt_hashpart (D : Digests) (p s H : Bytes) (h : cryptSha1 D p s = .ok H) :
+    ∃ S dig, H = S ++ dig ∧ ∀ t, cryptSha1 D p (S ++ t) = .ok H := by
+  obtain ⟨P, e, f⟩ := cryptSha1_refeed h
+  exact ⟨_, _, e, f⟩
+
+theorem C01_nt_fix (D : Digests) (p s H : Bytes) (h : cryptNt D p s = .ok H) : cryptNt D p H = .ok H := by
+  obtain ⟨e, f⟩ := cryptNt_refeed h
+  have := f ([36] ++ hexLower (D.nt p)); rw [← List.append_assoc, ← e] at this; exact this
+
+theorem C01_nt_hashpart (D : Digests) (p s H : Bytes) (h : cryptNt D p s = .ok H) :
+    ∀ t, cryptNt D p (ntMagic ++ t) = .ok H := (cryptNt_refeed h).2
+
+theorem C01_descrypt_fix (D : Digests) (p s H : Bytes) (h : cryptDes D p s = .ok H) : cryptDes D p H = .ok H := by
+  obtain ⟨salt, e, f⟩ := cryptDes_refeed h
+  have := f (desEncode (D.desHash (desKey p) salt 25)); rwa [← e] at this
+
+theorem C01_descrypt_hashpart (D : Digests) (p s H : Bytes) (h : cryptDes D p s = .ok H) :
+    ∃ S dig, H = S ++ dig ∧ S.length = 2 ∧ ∀ t, cryptDes D p (S ++ t) = .ok H := by
+  obtain ⟨salt, e, f⟩ := cryptDes_refeed h
+  exact ⟨_, _, e, rfl, f⟩
+
+theorem C01_bsdicrypt_fix (D : Digests) (p s H : Bytes) (h : cryptBsdi D p s = .ok H) : cryptBsdi D p H = .ok H := by
+  obtain ⟨dig, e, f⟩ := cryptBsdi_refeed h
+  have := f dig; rwa [← e] at this
+
+theorem C01_bsdicrypt_hashpart (D : Digests) (p s H : Bytes) (h : cryptBsdi D p s = .ok H) :
+    ∃ dig, H = s.take 9 ++ dig ∧ ∀ t, cryptBsdi D p (s.take 9 ++ t) = .ok H := cryptBsdi_refeed h
+
+/-- bigcrypt: the round trip (its setting length is part of its semantics, so there is no hash-part clause) -/
+theorem C01_bigcrypt_fix (d : Bool) (D : Digests) (hD : D.WF) (p s H : Bytes) (h : cryptBig d D p s = .ok H) :
+    cryptBig d D p H = .ok H := cryptBig_fix d D hD p s H h
+
+/-- bcrypt (all four subtypes): 28 characters of the setting, the 29th with its four unused bits cleared, then the digest -/
+theorem C01_bcrypt_fix (D : Digests) (p s H : Bytes) (h : cryptBf D p s = .ok H) : cryptBf D p H = .ok H := by
+  obtain ⟨c22, dig, _, e, f⟩ := cryptBf_refeed h
+  have := f dig; rwa [← e] at this
+
+theorem C01_bcrypt_hashpart (D : Digests) (p s H : Bytes) (h : cryptBf D p s = .ok H) :
+    ∃ S dig, H = S ++ dig ∧ S.length = 29 ∧ ∀ t, cryptBf D p (S ++ t) = .ok H := by
+  obtain ⟨c22, dig, hl, e, f⟩ := cryptBf_refeed h
+  exact ⟨s.take 28 ++ [c22], dig, e, by simp; omega, f⟩
+
+/-- non-vacuity: concrete settings meet the hypotheses (kernel-evaluated with the executable digests abstracted away) -/
+example (D : Digests) : ∃ H, cryptMd5 D [112, 119] [36, 49, 36, 115, 97, 108, 116] = .ok H := ⟨_, rfl⟩
+example (D : Digests) : ∃ H, cryptDes D [112, 119] [97, 98] = .ok H := ⟨_, rfl⟩
 
 end Xc.C01
